@@ -82,7 +82,18 @@ func mm(clause, format string, a ...any) *mismatch {
 	return &mismatch{clause: clause, detail: fmt.Sprintf(format, a...)}
 }
 
-func checkValue(view, path string, it bt.Item, expr hcl.Expression, crlf bool) *mismatch {
+// layout: the properties of a rendering the expected values depend on.
+type layout struct {
+	crlf bool
+	// flushTab: a `<<-` body line is indented with blanks that include a tab.
+	// hclsyntax/spec.md removes "the minimum number of leading spaces"; whether
+	// a horizontal tab counts as one is not stated, so any amount of the
+	// indentation may remain in the value (the content after it is demanded).
+	flushTab bool
+}
+
+func checkValue(view, path string, it bt.Item, expr hcl.Expression, lay layout) *mismatch {
+	crlf := lay.crlf
 	if expr == nil {
 		return mm(view+".attr-nil-expr", "%s: attribute %q has a nil expression", path, it.Name)
 	}
@@ -92,6 +103,10 @@ func checkValue(view, path string, it bt.Item, expr hcl.Expression, crlf bool) *
 	}
 	for _, w := range wantVals(it.Val, crlf) {
 		if v.RawEquals(w) {
+			return nil
+		}
+		if it.Val == "fheredoc" && lay.flushTab && v.Type() == cty.String && v.IsKnown() && !v.IsNull() && !v.IsMarked() &&
+			strings.TrimLeft(v.AsString(), " \t") == w.AsString() {
 			return nil
 		}
 	}
@@ -209,7 +224,7 @@ func compareHeaders(view, path string, want []bt.Item, n int, typ func(i int) st
 }
 
 // view 1: the hclsyntax.Body fields
-func compareFields(view, path string, got *hclsyntax.Body, want []bt.Item, crlf bool) *mismatch {
+func compareFields(view, path string, got *hclsyntax.Body, want []bt.Item, lay layout) *mismatch {
 	if got == nil {
 		return mm(view+".nil-body", "%s: nil body", path)
 	}
@@ -223,7 +238,7 @@ func compareFields(view, path string, got *hclsyntax.Body, want []bt.Item, crlf 
 		if ga == nil || ga.Name != a.Name {
 			return mm(view+".attr-name-field", "%s: Attributes[%q] is nil or carries another name", path, a.Name)
 		}
-		if m := checkValue(view, path, a, ga.Expr, crlf); m != nil {
+		if m := checkValue(view, path, a, ga.Expr, lay); m != nil {
 			return m
 		}
 	}
@@ -237,7 +252,7 @@ func compareFields(view, path string, got *hclsyntax.Body, want []bt.Item, crlf 
 		if len(gb.LabelRanges) != len(gb.Labels) {
 			return mm(view+".label-ranges-count", "%s: block %d has %d labels but %d label ranges", path, i, len(gb.Labels), len(gb.LabelRanges))
 		}
-		if m := compareFields(view, fmt.Sprintf("%s/%s[%d]", path, b.Name, i), gb.Body, b.Body, crlf); m != nil {
+		if m := compareFields(view, fmt.Sprintf("%s/%s[%d]", path, b.Name, i), gb.Body, b.Body, lay); m != nil {
 			return m
 		}
 	}
@@ -272,7 +287,7 @@ func schemaFor(items []bt.Item) (*hcl.BodySchema, bool) {
 
 // views 2 and 3: hcl.Body.Content with the derived schema, JustAttributes on
 // attribute-only bodies
-func compareContent(path string, got hcl.Body, want []bt.Item, crlf bool, local map[string]int64) *mismatch {
+func compareContent(path string, got hcl.Body, want []bt.Item, lay layout, local map[string]int64) *mismatch {
 	if got == nil {
 		return mm("content.nil-body", "%s: nil body", path)
 	}
@@ -290,7 +305,7 @@ func compareContent(path string, got hcl.Body, want []bt.Item, crlf bool, local 
 			if ja[a.Name] == nil || ja[a.Name].Name != a.Name {
 				return mm("justattrs.attr-name-field", "%s: JustAttributes()[%q] is nil or carries another name", path, a.Name)
 			}
-			if m := checkValue("justattrs", path, a, ja[a.Name].Expr, crlf); m != nil {
+			if m := checkValue("justattrs", path, a, ja[a.Name].Expr, lay); m != nil {
 				return m
 			}
 		}
@@ -314,7 +329,7 @@ func compareContent(path string, got hcl.Body, want []bt.Item, crlf bool, local 
 		if content.Attributes[a.Name].Name != a.Name {
 			return mm("content.attr-name-field", "%s: Content attribute %q carries another name", path, a.Name)
 		}
-		if m := checkValue("content", path, a, content.Attributes[a.Name].Expr, crlf); m != nil {
+		if m := checkValue("content", path, a, content.Attributes[a.Name].Expr, lay); m != nil {
 			return m
 		}
 	}
@@ -324,7 +339,7 @@ func compareContent(path string, got hcl.Body, want []bt.Item, crlf bool, local 
 		return m
 	}
 	for i, b := range blocks {
-		if m := compareContent(fmt.Sprintf("%s/%s[%d]", path, b.Name, i), content.Blocks[i].Body, b.Body, crlf, local); m != nil {
+		if m := compareContent(fmt.Sprintf("%s/%s[%d]", path, b.Name, i), content.Blocks[i].Body, b.Body, lay, local); m != nil {
 			return m
 		}
 	}
@@ -391,18 +406,21 @@ func checkRendering(tree bt.Tree, dupWhere string, isDup bool, r bt.Rendering, l
 	if !ok {
 		return fail("body-type", "File.Body is %T, not *hclsyntax.Body", f.Body)
 	}
-	crlf := r.CRLF()
-	if m := compareFields("fields", "top", body, tree.Items, crlf); m != nil {
+	lay := layout{crlf: r.CRLF(), flushTab: r.FlushTab}
+	if r.FlushTab {
+		local["renderings_flush_heredoc_tab_indented"]++
+	}
+	if m := compareFields("fields", "top", body, tree.Items, lay); m != nil {
 		return fail(pre+m.clause, "hclsyntax.Body differs from what was written: %s", m.detail)
 	}
-	if m := compareContent("top", f.Body, tree.Items, crlf, local); m != nil {
+	if m := compareContent("top", f.Body, tree.Items, lay, local); m != nil {
 		return fail(pre+m.clause, "schema-driven view differs from what was written: %s", m.detail)
 	}
 	body2, ok := f2.Body.(*hclsyntax.Body)
 	if !ok {
 		return fail("hclparse.body-type", "hclparse File.Body is %T", f2.Body)
 	}
-	if m := compareFields("hclparse", "top", body2, tree.Items, crlf); m != nil {
+	if m := compareFields("hclparse", "top", body2, tree.Items, lay); m != nil {
 		return fail(pre+m.clause, "hclparse.ParseHCL result differs from what was written: %s", m.detail)
 	}
 	return nil
